@@ -113,14 +113,29 @@ def rule_clamp_before_shares(ctx: Ctx) -> RuleResult:
 def rule_margins(ctx: Ctx) -> RuleResult:
     p = ctx.p
     rr = RuleResult("PAIR", "C19.3", "the second margin is defined as available - size - first margin; later adjustments are sum-preserving pairs or the final non-clip clamp", floor=2)
-    for q, avail, sz, a_, b_ in (
-        ("urwid.widget.padding.calculate_left_right_padding", "maxcol", "width", "left", "right"),
-        ("urwid.widget.filler.calculate_top_bottom_filler", "maxrow", "height", "top", "bottom"),
-    ):
+    for q in ("urwid.widget.padding.calculate_left_right_padding", "urwid.widget.filler.calculate_top_bottom_filler"):
         fi = p.func(q)
         cfg = cfg_of(fi)
-        want = {avail: 1, sz: -1, b_: -1}
-        rem = [n for n in cfg.nodes if isinstance(n.ast, ast.Assign) and len(n.ast.targets) == 1 and isinstance(n.ast.targets[0], ast.Name) and n.ast.targets[0].id == a_ and linear(n.ast.value) == want]
+        # roles from the signature: (available, ..., first margin, second margin); the child's size is whatever
+        # single name completes `margin = available - <size> - other margin`
+        avail, a_, b_ = fi.params[0], fi.params[-2], fi.params[-1]
+        sz = "<size>"
+
+        def _is_rem(n):
+            a = n.ast
+            if not (isinstance(a, ast.Assign) and len(a.targets) == 1 and isinstance(a.targets[0], ast.Name) and a.targets[0].id in (a_, b_)):
+                return None
+            other = b_ if a.targets[0].id == a_ else a_
+            L = linear(a.value)
+            if L and len(L) == 3 and L.get(avail) == 1 and L.get(other) == -1 and sorted(L.values()) == [-1, -1, 1]:
+                return a.targets[0].id
+            return None
+
+        rem = [n for n in cfg.nodes if _is_rem(n)]
+        if rem:
+            tgt = _is_rem(rem[0])
+            a_, b_ = (a_, b_) if tgt == a_ else (b_, a_)
+            sz = next(k for k in linear(rem[0].ast.value) if k not in (avail, b_))
         rr.inst(f"{short(fi)}:remainder", True, {"function": short(fi), "remainder_definition": [norm(n.stmt, 60) for n in rem]})
         rets = [n for n in cfg.nodes if n.kind == "return"]
         if len(rem) != 1 or not all(cfg.dominated(r, rem) for r in rets):
@@ -169,11 +184,23 @@ def rule_gridflow_budget(ctx: Ctx) -> RuleResult:
     fi = p.func("urwid.widget.grid_flow.GridFlow.generate_display_widget")
     du = DefUse(fi)
     cfg = du.cfg
-    used = [n for n in cfg.nodes if isinstance(n.ast, ast.Assign) and any(isinstance(t, ast.Name) and t.id == "used_space" for t in n.ast.targets) and not (isinstance(n.ast.value, ast.Constant))]
+    # roles: the wrap test compares `<total> - <used>` with the next cell's width, where <total> comes from
+    # self._get_maxcol(size); <used> is the running budget (set to 0 for a new row, recomputed after each cell)
+    tests = []
+    TOT = USED = None
+    for n in cfg.nodes:
+        if n.kind != "test":
+            continue
+        for c in ast.walk(n.ast):
+            if isinstance(c, ast.Compare) and len(c.ops) == 1:
+                for side in (c.left, c.comparators[0]):
+                    if isinstance(side, ast.BinOp) and isinstance(side.op, ast.Sub) and isinstance(side.left, ast.Name) and isinstance(side.right, ast.Name) and "_get_maxcol" in du.text(side.left, n):
+                        tests.append(n)
+                        TOT, USED = side.left.id, side.right.id
+    used = [n for n in cfg.nodes if USED and isinstance(n.ast, ast.Assign) and any(isinstance(t, ast.Name) and t.id == USED for t in n.ast.targets) and not (isinstance(n.ast.value, ast.Constant))]
     padw = [n for n in cfg.nodes if isinstance(n.ast, ast.Assign) and any(isinstance(t, ast.Attribute) and t.attr == "width" for t in n.ast.targets)]
-    tests = [n for n in cfg.nodes if n.kind == "test" and "used_space" in ast.unparse(n.ast)]
     if len(used) != 1 or len(padw) != 1 or not tests:
-        raise AnalysisError("GridFlow.generate_display_widget: used_space / pad.width / wrap test not found")
+        raise AnalysisError("GridFlow.generate_display_widget: used-space budget / pad.width / wrap test (`<maxcol> - <used> < <width>`) not found")
     U = linear(du.expand(used[0].ast.value, used[0]))
     # pad.width may be written in terms of used_space: expand at its own node
     W = linear(du.expand(padw[0].ast.value, padw[0]))
@@ -189,8 +216,8 @@ def rule_gridflow_budget(ctx: Ctx) -> RuleResult:
     # the test compares maxcol - used_space with the next cell's width
     t = tests[0].ast
     rr.inst("wrap test form", True, {"test": norm(tests[0].stmt, 70)})
-    ok = any(isinstance(c, ast.Compare) and len(c.ops) == 1 and isinstance(c.ops[0], ast.Lt) and linear(c.left) == {"maxcol": 1, "used_space": -1} and isinstance(c.comparators[0], ast.Name) for c in ast.walk(t)) or any(
-        isinstance(c, ast.Compare) and len(c.ops) == 1 and isinstance(c.ops[0], ast.Gt) and linear(c.comparators[0]) == {"maxcol": 1, "used_space": -1} for c in ast.walk(t)
+    ok = any(isinstance(c, ast.Compare) and len(c.ops) == 1 and isinstance(c.ops[0], ast.Lt) and linear(c.left) == {TOT: 1, USED: -1} and isinstance(c.comparators[0], ast.Name) for c in ast.walk(t)) or any(
+        isinstance(c, ast.Compare) and len(c.ops) == 1 and isinstance(c.ops[0], ast.Gt) and linear(c.comparators[0]) == {TOT: 1, USED: -1} for c in ast.walk(t)
     )
     if not ok:
         rr.add(finding("PAIR", fi, tests[0].stmt, f"the wrap test `{norm(t, 60)}` is not `maxcol - used_space < <cell width>`", construct=f"wrap test {norm(t, 60)}"))
